@@ -615,7 +615,7 @@ fn default_writer(
             sval::stream_display(&mut *stream, self.0.tpl())?;
             stream.record_value_end(None, &sval::Label::new(KEY_TPL))?;
 
-            let _ = self.0.props().dedup().for_each(|k, v| {
+            let props = self.0.props().dedup().for_each(|k, v| {
                 match (|| {
                     stream.record_value_begin(None, &sval::Label::new_computed(k.get()))?;
                     stream.value_computed(&v)?;
@@ -627,6 +627,12 @@ fn default_writer(
                     Err(_) => ControlFlow::Break(()),
                 }
             });
+
+            // If a property failed to stream then the record is incomplete
+            // Report the failure instead of closing a truncated record
+            if let ControlFlow::Break(()) = props {
+                return sval::error();
+            }
 
             stream.record_end(None, None, None)
         }
